@@ -873,3 +873,47 @@ Proof.
   { apply in_seq. assert ((j < length ws)%nat) by (apply nth_error_Some; rewrite Hn; discriminate). lia. }
   specialize (H j Hj). destruct (lineage_t ws j) as [|[[|] path]]; try discriminate. exists path. reflexivity.
 Qed.
+
+(* ====================================================================================== *)
+(* a typed operand before the dot (typed_entity)                                          *)
+(* ====================================================================================== *)
+
+Theorem wdefinition_typed_member_case ws a stem t p i enc pi q up full lft :
+  distinct_stems ws = true -> nth_error ws a = Some (stem, t) -> flat_methods t = true ->
+  full_chain ws a t (descend p t) = Ans full -> path_up p t = (S i, enc) :: (pi, q) :: up ->
+  is_dot q = true -> first_child q = Some lft -> own_entity t lft = None ->
+  wdefinition ws a p =
+  match typed_entity ws a t (descend p t) lft with
+  | Outside => Outside
+  | Ans None => Ans []
+  | Ans (Some en) =>
+      match entity_chain ws a full en with
+      | Outside => Outside
+      | Ans None => Ans []
+      | Ans (Some ch) => Ans (wdef_all ws ch (get_id enc p))
+      end
+  end.
+Proof.
+  intros H0 H1 H2 H3 H4 H5 H6 H7. unfold wdefinition. rewrite H0, H1. cbn [negb]. rewrite H2. cbn [negb].
+  rewrite H3, H4, H5. unfold wdef_rhs. rewrite H6, H7. reflexivity.
+Qed.
+
+Theorem wcompletion_typed_member_case ws a stem t p i enc pi q up full lft :
+  distinct_stems ws = true -> nth_error ws a = Some (stem, t) -> flat_methods t = true ->
+  full_chain ws a t (descend p t) = Ans full -> path_up p t = (S i, enc) :: (pi, q) :: up ->
+  is_dot enc = false -> is_dot q = true -> first_child q = Some lft -> own_entity t lft = None ->
+  wcompletion ws a p =
+  match typed_entity ws a t (descend p t) lft with
+  | Outside => Outside
+  | Ans None => Ans []
+  | Ans (Some en) =>
+      match entity_chain ws a full en with
+      | Outside => Outside
+      | Ans None => Ans []
+      | Ans (Some ch) => Ans (labels_rhs ch)
+      end
+  end.
+Proof.
+  intros H0 H1 H2 H3 H4 H5 H6 H7 H8. unfold wcompletion. rewrite H0, H1. cbn [negb]. rewrite H2. cbn [negb].
+  rewrite H3, H4, H5, H6. unfold wcompl_rhs. rewrite H7, H8. reflexivity.
+Qed.
